@@ -481,6 +481,10 @@ class DataclassSerializer:
 
         # For everything else (dicts, primitives, etc.), let cattrs handle it
         result = unstructure_to_dict(obj)
+
+        # Dataclass instances cattrs left unconverted inside a dict (unresolved annotations) are finished here too
+        result = DataclassSerializer._ensure_all_dicts(result, visited)
+
         return DataclassSerializer._remove_none_values(result)
 
     @staticmethod
